@@ -105,6 +105,10 @@ class Mapper(HoloPyObject):
         self.parameter_names = []
 
     def convert_to_map(self, parameter, name=''):
+        if isinstance(parameter, (np.ndarray, xr.DataArray)) and \
+                parameter.ndim == 0:
+            # a number that happens to be wrapped in a 0-d array
+            parameter = parameter.item()
         if isinstance(parameter, (list, tuple, np.ndarray)):
             mapped = self.iterate_mapping(name + '.', enumerate(parameter))
         elif isinstance(parameter, dict):
